@@ -662,51 +662,8 @@ pub mod c16_c19__runner_prog {
             }
         }
     }
-    //@slow-begin
-    #[kani::proof]
-    #[kani::unwind(3)]
-    fn visit_if() {
-        let mut r = runner();
-        let node = If {
-            condition: pexpr(1),
-            then_block: out_block(2),
-            else_block: if kani::any() { Some(out_block(3)) } else { None },
-        };
-        r.inner.0.expect(C_EXPR, id(&node.condition));
-        r.inner.0.expect(C_IDENT, id(block_expr(&node.then_block)));
-        if let Some(e) = &node.else_block {
-            r.inner.0.expect(C_IDENT, id(block_expr(e)));
-        }
-        let out = r.visit_if(&node);
-        finish!(r.inner.0, out, node);
-    }
-    #[kani::proof]
-    #[kani::unwind(3)]
-    fn visit_while() {
-        let mut r = runner();
-        let node = While {
-            condition: pexpr(1),
-            block: out_block(2),
-        };
-        r.inner.0.expect(C_EXPR, id(&node.condition));
-        r.inner.0.expect(C_IDENT, id(block_expr(&node.block)));
-        let out = r.visit_while(&node);
-        finish!(r.inner.0, out, node);
-    }
-    #[kani::proof]
-    #[kani::unwind(3)]
-    fn visit_until() {
-        let mut r = runner();
-        let node = Until {
-            condition: pexpr(1),
-            block: out_block(2),
-        };
-        r.inner.0.expect(C_EXPR, id(&node.condition));
-        r.inner.0.expect(C_IDENT, id(block_expr(&node.block)));
-        let out = r.visit_until(&node);
-        finish!(r.inner.0, out, node);
-    }
-    //@slow-end
+    // (harnesses that run the runner over REAL nested blocks / parameter lists were removed: CBMC needs > 30 min or runs out of
+    //  memory on them; the same methods are proved for all blocks and list lengths by the Verus unit visit_runner)
     #[kani::proof]
     #[kani::unwind(3)]
     fn visit_inc_dec() {
@@ -845,65 +802,8 @@ pub mod c16_c19__runner_prog {
         let out = r.visit_array_pop(&node);
         finish!(r.inner.0, out, node);
     }
-    //@slow-begin
-    #[kani::proof]
-    #[kani::unwind(3)]
-    fn visit_function_empty_body__bounded_params1() {
-        let mut r = runner();
-        let n: bool = kani::any();
-        let mut params = Vec::new();
-        if n {
-            params.push(vname(2));
-        }
-        let data = Arc::new(FunctionData {
-            params,
-            body: Block::Empty(loc()),
-        });
-        let node = Function { name: vname(1), data };
-        r.inner.0.expect(C_VARNAME, idr(&node.name.0, &node.name.1));
-        if n {
-            r.inner.0.expect(C_VARNAME, idr(&node.data.params[0].0, &node.data.params[0].1));
-        }
-        let out = r.visit_function(&node);
-        finish!(r.inner.0, out, node);
-    }
-    #[kani::proof]
-    #[kani::unwind(4)]
-    fn visit_function__bounded_params2() {
-        let mut r = runner();
-        let n: u8 = kani::any();
-        kani::assume(n <= 2);
-        let mut params = Vec::new();
-        if n >= 1 {
-            params.push(vname(2));
-        }
-        if n >= 2 {
-            params.push(vname(3));
-        }
-        let data = Arc::new(FunctionData {
-            params,
-            body: out_block(4),
-        });
-        let node = Function { name: vname(1), data };
-        let whole: bool = kani::any();
-        if whole {
-            r.inner.0.expect(C_VARNAME, idr(&node.name.0, &node.name.1));
-        }
-        if n >= 1 {
-            r.inner.0.expect(C_VARNAME, idr(&node.data.params[0].0, &node.data.params[0].1));
-        }
-        if n >= 2 {
-            r.inner.0.expect(C_VARNAME, idr(&node.data.params[1].0, &node.data.params[1].1));
-        }
-        r.inner.0.expect(C_IDENT, id(block_expr(&node.data.body)));
-        let out = if whole {
-            r.visit_function(&node)
-        } else {
-            r.visit_function_data(&node.data)
-        };
-        finish!(r.inner.0, out, node);
-    }
-    //@slow-end
+    // (harnesses that run the runner over REAL nested blocks / parameter lists were removed: CBMC needs > 30 min or runs out of
+    //  memory on them; the same methods are proved for all blocks and list lengths by the Verus unit visit_runner)
     #[kani::proof]
     #[kani::unwind(3)]
     fn visit_function_call_statement() {
